@@ -79,37 +79,13 @@ pub async fn generic_shell_main<S>(env: &mut Env<S>, args: Vec<String>)
 where
     S: Chdir + Clone + GetCwd + GetRlimit + GetUid + Runtime + Sysconf + TcGetPgrp + Times + Umask + Write + 'static,
 {
-    use yash_cli::startup::args::Parse;
-    let run = match yash_cli::startup::args::parse(args) {
-        Ok(Parse::Run(run)) => run,
-        _ => {
-            env.exit_status = ExitStatus::ERROR;
-            return;
-        }
-    };
-    let work = yash_cli::startup::configure_environment(env, run).await;
-    register_generic(env);
-    env.variables.get_or_new("PATH", Scope::Global).assign("/bin", None).ok();
-    let ref_env = RefCell::new(env);
-    let lexer = match yash_cli::startup::input::prepare_input(&ref_env, &work.source).await {
-        Ok(l) => l,
-        Err(_) => {
-            ref_env.borrow_mut().exit_status = ExitStatus::NOT_FOUND;
-            return;
-        }
-    };
-    let result = read_eval_loop(&ref_env, &mut { lexer }).await;
-    let env = ref_env.into_inner();
-    env.apply_result(result);
-    match result {
-        Continue(())
-        | Break(Divert::Continue { .. })
-        | Break(Divert::Break { .. })
-        | Break(Divert::Return(_))
-        | Break(Divert::Interrupt(_))
-        | Break(Divert::Exit(_)) => run_exit_trap(env).await,
-        Break(Divert::Abort(_)) => (),
-    }
+    // yash-cli's own entry point (feature `verif-hooks`), with an empty environment
+    let before_input = Box::new(move |any: &mut dyn std::any::Any| {
+        let env = any.downcast_mut::<Env<S>>().expect("the environment of the shell");
+        register_generic(env);
+        env.variables.get_or_new("PATH", Scope::Global).assign("/bin", None).ok();
+    });
+    yash_cli::verif::run_as_shell_process(env, args, vec![], before_input).await;
 }
 
 /// Entry point of `yv real-shell ARGS…`: never returns.
